@@ -1655,3 +1655,470 @@ Proof.
   - destruct (is_my_message _ from m); [exists m1; split; [exact K|reflexivity]|reflexivity].
   - destruct (is_my_message _ from m); [exists m1; split; [exact K|reflexivity]|reflexivity].
 Qed.
+
+Lemma req_method_keeps N m m' : keeps N m m' -> req_method m' = req_method m.
+Proof. intros [S _]. unfold req_method. rewrite S. reflexivity. Qed.
+Lemma notify_terminated_keeps N meth m m' : keeps N m m' -> In (s2b "Subscription-State") N ->
+  notify_terminated meth m' = notify_terminated meth m.
+Proof. intros K H. unfold notify_terminated. rewrite (k_substate N m m' K H). reflexivity. Qed.
+
+Lemma send_to_backend_pin e m x d v ex : is_request m = true ->
+  pin_at d v ex (ps_pins (x_p x)) -> e_now e < ex ->
+  (forall c, snd (s_get_cseq m) = Ok c -> trans_key e c <> d) ->
+  (dialog_of m = Ok d -> notify_terminated (req_method m) m = false) ->
+  pin_at d v ex (ps_pins (x_p (fst (send_to_backend e m x)))) /\ mem_eq (x_p x) (x_p (fst (send_to_backend e m x))).
+Proof.
+  intros R P L NK NT.
+  destruct (ps_has_rr (x_p x)) eqn:HR.
+  2:{ unfold send_to_backend. rewrite HR. cbn. split; [exact P|apply mem_refl]. }
+  destruct (first_transport (e_lc e)) as [t0|] eqn:FT.
+  2:{ unfold send_to_backend. rewrite HR, FT. cbn. split; [exact P|apply mem_refl]. }
+  destruct (send_to_backend_spec e m x t0 HR FT) as (EP & _). rewrite EP.
+  apply stb_pin_preserved; assumption.
+Qed.
+
+(* any request whatsoever, end to end *)
+Lemma request_pin_preserved e peer port from rs tcp m x x' d v ex : is_request m = true ->
+  process_message e peer port from rs tcp m x = Ok x' ->
+  pin_at d v ex (ps_pins (x_p x)) -> e_now e < ex ->
+  (forall c, snd (s_get_cseq m) = Ok c -> trans_key e c <> d) ->
+  (dialog_of m = Ok d -> notify_terminated (req_method m) m = false) ->
+  pin_at d v ex (ps_pins (x_p x')) /\ mem_eq (x_p x) (x_p x').
+Proof.
+  intros R E P L NK NT.
+  destruct (process_message_request e peer port from rs tcp m x x' R E) as (m4 & x1 & K4 & _ & LB & _ & ->).
+  assert (R4 : is_request m4 = true) by (rewrite (k_is_request NQ m m4 K4); exact R).
+  assert (P1 : pin_at d v ex (ps_pins (x_p x1))) by (destruct LB as (_&_&_&_&->); exact P).
+  pose proof (handle_message_request e from m4 x1 R4) as H. cbv zeta in H.
+  assert (LBP : forall y, lb_eq (x_p x1) (x_p y) -> pin_at d v ex (ps_pins (x_p y)) /\ mem_eq (x_p x) (x_p y)).
+  { intros y LY. split; [destruct LY as (_&_&_&_&->); exact P1|].
+    eapply mem_trans; apply mem_of_lb; eassumption. }
+  assert (SB : (exists m', keeps NQ m4 m' /\ fst (handle_message e from m4 x1) = fst (send_to_backend e m' x1)) ->
+               pin_at d v ex (ps_pins (x_p (fst (handle_message e from m4 x1)))) /\
+               mem_eq (x_p x) (x_p (fst (handle_message e from m4 x1)))).
+  { intros (m' & K' & ->).
+    assert (K : keeps NQ m m') by (eapply keeps_trans; eassumption).
+    destruct (send_to_backend_pin e m' x1 d v ex) as [Q1 Q2].
+    - rewrite (k_is_request NQ m m' K). exact R.
+    - exact P1.
+    - exact L.
+    - intros c Hc. apply NK. rewrite <- (k_cseq NQ m m' K) by in_names. exact Hc.
+    - intros Hd. rewrite (req_method_keeps NQ m m' K), (notify_terminated_keeps NQ _ m m' K) by in_names.
+      apply NT. rewrite <- (dialog_of_keeps NQ m m' K) by in_names. exact Hd.
+    - split; [exact Q1|]. eapply mem_trans; [apply mem_of_lb; exact LB|exact Q2]. }
+  destruct (hop_result e m4); [apply LBP; exact H| |];
+    (destruct (is_my_message _ from m4); [apply SB; exact H|rewrite H; apply LBP; apply lb_refl]).
+Qed.
+
+(* ---- requests addressed to the proxy's service ---- *)
+Definition static_hop (e : env) (m : message) : res (bytes * Z * bytes) :=
+  let! t := snd (s_get_to m) in
+  match fromto_host t with
+  | None => Err
+  | Some h => match find_route (route_table_of (e_cfg e)) h with
+              | Some it => Ok (ri_host it, ri_port it, ri_proto it)
+              | None => Err
+              end
+  end.
+(* no Route entry to follow, no static route for the To host, Request-URI designates the service *)
+Definition addressed_to_service (e : env) (from : stransport) (m : message) : Prop :=
+  is_request m = true /\ hvals (s2b "Route") (m_headers m) = [] /\
+  (forall v, static_hop e m <> Ok v) /\
+  is_my_message (new_my_name (c_name (e_cfg e))) from m = true.
+Lemma hop_result_no_route e m : hvals (s2b "Route") (m_headers m) = [] -> hop_result e m = static_hop e m.
+Proof.
+  intros HR. unfold hop_result, next_request_hop, next_hop_by_route, mbind.
+  assert (G : s_get_route m = (m, Err)).
+  { unfold s_get_route, typed_get. pose proof (get_header_hvals (s2b "Route") (m_headers m)) as Eh.
+    rewrite HR in Eh. destruct (get_header (s2b "Route") (m_headers m)); [discriminate|reflexivity]. }
+  rewrite G. unfold next_hop_by_config, static_hop, mbind.
+  destruct (s_get_to m) as [m1 r]. cbn [snd]. destruct r as [t| |]; try reflexivity. cbn [rbind].
+  destruct (fromto_host t) as [h|]; [|reflexivity]. destruct (find_route _ h); reflexivity.
+Qed.
+Lemma static_hop_keeps N e m m' : keeps N m m' -> In (s2b "To") N -> static_hop e m' = static_hop e m.
+Proof. intros K H. unfold static_hop. rewrite (k_to N m m' K H). reflexivity. Qed.
+Lemma process_message_to_backend e peer port from rs tcp m x x' : addressed_to_service e from m ->
+  process_message e peer port from rs tcp m x = Ok x' ->
+  exists m' xa, keeps NQ m m' /\ lb_eq (x_p x) (x_p xa) /\ x_outs xa = x_outs x /\ x' = fst (send_to_backend e m' xa).
+Proof.
+  intros (R & HR & NS & MY) E.
+  destruct (process_message_request e peer port from rs tcp m x x' R E) as (m4 & x1 & K4 & HR4 & LB & EO & ->).
+  assert (R4 : is_request m4 = true) by (rewrite (k_is_request NQ m m4 K4); exact R).
+  pose proof (handle_message_request e from m4 x1 R4) as H. cbv zeta in H.
+  rewrite (hop_result_no_route e m4 (HR4 HR)), (static_hop_keeps NQ e m m4 K4 ltac:(in_names)) in H.
+  rewrite (is_my_message_start _ from m m4 (proj1 K4)), MY in H.
+  destruct (static_hop e m) as [v| |] eqn:ES; [exfalso; exact (NS v eq_refl)| |];
+    destruct H as (m' & K' & ->); exists m', x1;
+    (split; [eapply keeps_trans; eassumption|]; split; [exact LB|]; split; [exact EO|reflexivity]).
+Qed.
+
+(* ---- responses ---- *)
+Definition binding_method (meth : bytes) : bool :=
+  beq meth (s2b "INVITE") || beq meth (s2b "BYE") || beq meth (s2b "SUBSCRIBE").
+Lemma hd_tail_pure_pin e p1 ob m d v ex p' :
+  pin_at d v ex (ps_pins p1) -> e_now e <= ex ->
+  (dialog_of m = Ok d -> forall meth, method_of m = Ok meth -> binding_method meth = false) ->
+  hd_tail_pure e p1 ob m = Ok p' -> pin_at d v ex (ps_pins p').
+Proof.
+  intros P L NB. unfold hd_tail_pure. destruct ob as [b|]; [|intros H; injection H as <-; exact P].
+  destruct (method_of m) as [meth| |] eqn:EM; try discriminate; [|intros H; injection H as <-; exact P].
+  destruct (beq meth (s2b "INVITE")) eqn:E1.
+  { destruct (dialog_of m) as [d'| |] eqn:ED; try discriminate; intros H; injection H as <-; [|exact P].
+    cbn [ps_pins with_pins]. apply pin_at_add_other; [|exact L|exact P].
+    intros ->. specialize (NB eq_refl meth eq_refl). unfold binding_method in NB. rewrite E1 in NB. discriminate. }
+  destruct (beq meth (s2b "BYE")) eqn:E2; [|intros H; injection H as <-; exact P].
+  destruct (dialog_of m) as [d'| |] eqn:ED; try discriminate; intros H; injection H as <-; [|exact P].
+  cbn [ps_pins with_pins]. apply pin_at_remove_other; [|exact P].
+  intros ->. specialize (NB eq_refl meth eq_refl). unfold binding_method in NB. rewrite E1, E2 in NB. discriminate.
+Qed.
+Lemma resp_pure_pin e peer port p m d v ex :
+  pin_at d v ex (ps_pins p) -> e_now e < ex ->
+  (forall t, tid_of m = Ok t -> t <> d) ->
+  (dialog_of m = Ok d -> forall meth, method_of m = Ok meth -> binding_method meth = false) ->
+  pin_at d v ex (ps_pins (resp_pure e peer port p m)).
+Proof.
+  intros P L NK NB. unfold resp_pure.
+  assert (P1 : pin_at d v ex (ps_pins (match hd_pure e peer port p m with Ok p' => p' | _ => p end))).
+  { destruct (hd_pure e peer port p m) as [p'| |] eqn:EH; try exact P.
+    unfold hd_pure in EH. destruct (alookup _ (ps_backends p)).
+    - apply (hd_tail_pure_pin e p _ m d v ex p' P ltac:(lia) NB EH).
+    - destruct (tid_of m) as [tid| |] eqn:ET; try discriminate.
+      refine (hd_tail_pure_pin e _ _ m d v ex p' _ ltac:(lia) NB EH). cbn [ps_pins with_pins].
+      assert (P0 : pin_at d v ex (fst (pins_get (e_now e) tid (ps_pins p)))) by (apply pin_at_get; assumption).
+      destruct (is_final_response m); [|exact P0]. apply pin_at_remove_other; [apply (NK tid eq_refl)|exact P0]. }
+  set (p1 := match hd_pure e peer port p m with Ok p' => p' | _ => p end) in *. clearbody p1.
+  unfold sub_bind_pure. destruct (relay_hop m) as [[[h pt] tr]| |]; try exact P1.
+  destruct (method_of m) as [meth| |] eqn:EM; try exact P1.
+  destruct (beq meth (s2b "SUBSCRIBE")) eqn:E3; [|exact P1].
+  destruct (alookup _ (ps_backends p1)); [|exact P1]. destruct (dialog_of m) as [d'| |] eqn:ED; try exact P1.
+  cbn [ps_pins with_pins]. apply pin_at_add_other; [|lia|exact P1].
+  intros ->. specialize (NB eq_refl meth eq_refl). unfold binding_method in NB. rewrite E3 in NB.
+  rewrite orb_true_r in NB. discriminate.
+Qed.
+
+(* [msg_ok d branch m]: processing m (with proxy branch [branch]) is not a terminator / re-binder for d *)
+Definition msg_ok (d branch : bytes) (m : message) : Prop :=
+  if is_request m then
+    (forall c, snd (s_get_cseq m) = Ok c -> cs_method c ++ "-"%char :: branch <> d) /\
+    (dialog_of m = Ok d -> notify_terminated (req_method m) m = false)
+  else
+    (forall t, tid_of m = Ok t -> t <> d) /\
+    (dialog_of m = Ok d -> forall meth, method_of m = Ok meth -> binding_method meth = false).
+
+Theorem C04_preserved_message : forall e peer port from rs tcp m x x' d v ex,
+  process_message e peer port from rs tcp m x = Ok x' ->
+  msg_ok d (e_branch e) m ->
+  pin_at d v ex (ps_pins (x_p x)) -> e_now e < ex ->
+  pin_at d v ex (ps_pins (x_p x')) /\ mem_eq (x_p x) (x_p x').
+Proof.
+  intros e peer port from rs tcp m x x' d v ex E OK P L. unfold msg_ok in OK.
+  destruct (is_request m) eqn:R.
+  - destruct OK as [NK NT]. eapply request_pin_preserved; eassumption.
+  - destruct OK as [NK NB].
+    destruct (process_message_response e peer port from rs tcp m x R) as (x2 & E2 & LB).
+    rewrite E in E2. injection E2 as <-. split.
+    + destruct LB as (_&_&_&_&->). apply resp_pure_pin; assumption.
+    + eapply mem_trans; [apply mem_of_static; apply (resp_pure_static e peer port (x_p x) m)|apply mem_of_lb; exact LB].
+Qed.
+
+(* ---- the converse step: no live pin => the rotation decides (C05) ---- *)
+Theorem C04_unpinned_step : forall e m x t0,
+  ps_has_rr (x_p x) = true -> first_transport (e_lc e) = Some t0 -> is_request m = true ->
+  (forall d, dialog_of m = Ok d -> snd (pins_get (e_now e) d (ps_pins (x_p x))) = None) ->
+  let b := fwd_bytes e t0 (x_p x) m in
+  let x' := fst (send_to_backend e m x) in
+  x_outs x' = x_outs x ++
+    match snd (rr_dispatch (ps_rr (x_p x))) with
+    | Some a => if fits_datagram b then to_addr_outs a b else []
+    | None => []
+    end /\
+  ps_rr (x_p x') = fst (rr_dispatch (ps_rr (x_p x))).
+Proof.
+  intros e m x t0 HR FT R NP b x'.
+  destruct (send_to_backend_spec e m x t0 HR FT) as (EP & EO & _). fold x' in EP, EO.
+  unfold stb_pure in EP, EO. fold b in EP, EO.
+  pose proof (stb_sel_mem e (x_p x) m) as [_ RR].
+  assert (S : snd (stb_sel e (x_p x) m) = BRR).
+  { unfold stb_sel, fbd_pure. rewrite (method_of_request m R).
+    destruct (_ && _)%bool; [reflexivity|].
+    destruct (dialog_of m) as [d| |] eqn:ED; try reflexivity. rewrite (NP d eq_refl).
+    destruct (get_raw _ m); reflexivity. }
+  destruct (stb_sel e (x_p x) m) as [p1 sel]. cbn [fst snd] in RR, S. subst sel.
+  rewrite backend_send_rr in EP, EO. rewrite RR in EP, EO.
+  destruct (snd (rr_dispatch (ps_rr (x_p x)))) as [a|]; cbn [fst snd] in EP, EO.
+  - destruct (fits_datagram b); cbn [fst snd] in EP, EO; (split; [exact EO|]); rewrite EP;
+      try destruct (snd (s_get_cseq m)); reflexivity.
+  - split; [exact EO|]. rewrite EP. reflexivity.
+Qed.
+
+(* ================================================================== Part 7: events and histories *)
+Lemma nth_set_same l : forall i p q, nth_p l i = Some q -> nth_p (set_nth_p l i p) i = Some p.
+Proof.
+  unfold nth_p. induction l as [|a l IH]; intros [|i] p q H; cbn in *; try discriminate; [reflexivity|].
+  eapply IH. exact H.
+Qed.
+Lemma nth_set_other l : forall i j p, i <> j -> nth_p (set_nth_p l i p) j = nth_p l j.
+Proof.
+  unfold nth_p. induction l as [|a l IH]; intros [|i] [|j] p NE; cbn; try reflexivity; try congruence.
+  apply IH. congruence.
+Qed.
+
+Section Pinned.
+  Variables (li : nat) (d addr : bytes) (g : nat) (ex : Z).
+  Let v := pin_val_backend addr g.
+  (* the dialog is bound to (addr, g) until ex and that backend object is registered *)
+  Definition pinned_p (p : pstate) : Prop :=
+    pin_at d v ex (ps_pins p) /\ alookup addr (ps_backends p) = Some g /\ ps_has_rr p = true.
+  Definition pinned (st : state) : Prop := exists p, nth_p (st_proxies st) li = Some p /\ pinned_p p.
+
+  Lemma pinned_p_message e peer port from rs tcp m x x' :
+    process_message e peer port from rs tcp m x = Ok x' -> msg_ok d (e_branch e) m -> e_now e < ex ->
+    pinned_p (x_p x) -> pinned_p (x_p x').
+  Proof.
+    intros E OK L (P & A & H).
+    destruct (C04_preserved_message e peer port from rs tcp m x x' d v ex E OK P L) as (P' & B & HR & _).
+    split; [exact P'|]. split; [rewrite B; exact A|rewrite HR; exact H].
+  Qed.
+
+  (* the messages a TCP chunk is cut into *)
+  Fixpoint chunk_msgs (fuel : nat) (s : bytes) : list message :=
+    match fuel with
+    | O => []
+    | S f => match trim_left s with
+             | [] => []
+             | _ => match parse_message s with Ok (m, rest) => m :: chunk_msgs f rest | _ => [] end
+             end
+    end.
+  Lemma pinned_p_tcp e cn : e_now e < ex -> forall fuel s x x',
+    tcp_messages fuel e cn s x = Ok x' -> Forall (msg_ok d (e_branch e)) (chunk_msgs fuel s) ->
+    pinned_p (x_p x) -> pinned_p (x_p x').
+  Proof.
+    intros L. induction fuel as [|f IH]; intros s x x' E F Q; cbn [tcp_messages chunk_msgs] in E, F.
+    - injection E as <-. exact Q.
+    - destruct (trim_left s); [injection E as <-; exact Q|].
+      destruct (parse_message s) as [[m rest]| |]; try (injection E as <-; exact Q).
+      inversion F as [|m0 l0 OK F']; subst.
+      destruct (process_message e (cn_peer cn) (cn_peer_port cn) (cn_from cn) (cn_received_support cn) (Some (cn_id cn)) m x)
+        as [x1| |] eqn:E1; try discriminate.
+      eapply IH; [exact E|exact F'|]. eapply pinned_p_message; eassumption.
+  Qed.
+
+  Definition ev_ok (branch : bytes) (ev : event) : Prop :=
+    match ev with
+    | EvUdp li' _ _ data => li' = li -> forall m rest, parse_message data = Ok (m, rest) -> msg_ok d branch m
+    | EvTcpData _ data => Forall (msg_ok d branch) (chunk_msgs (S (List.length data)) data)
+    | EvBackendAdd li' a => li' = li -> a <> addr
+    | EvBackendRemove li' a => li' = li -> a <> addr
+    | EvTcpAccept _ _ _ => True
+    | EvTcpClose _ => True
+    end.
+
+  Lemma run_ctx_pinned st li' f st' outs :
+    run_ctx st li' f = Ok (st', outs) ->
+    (li' = li -> forall p x', f p {| x_learned := st_learned st; x_p := p; x_conns := st_conns st; x_world := st_world st; x_outs := [] |} = Ok x' ->
+                 pinned_p p -> pinned_p (x_p x')) ->
+    pinned st -> pinned st'.
+  Proof.
+    intros E H (p & N & Q). unfold run_ctx in E.
+    destruct (nth_p (st_proxies st) li') as [p0|] eqn:N0; [|injection E as <- _; exists p; split; assumption].
+    destruct (f p0 _) as [x'| |] eqn:EF; try discriminate. injection E as <- _. unfold pinned. cbn [st_proxies].
+    destruct (Nat.eq_dec li' li) as [->|NE].
+    - rewrite N in N0. injection N0 as <-. exists (x_p x'). split; [eapply nth_set_same; exact N|].
+      eapply H; [reflexivity|exact EF|exact Q].
+    - exists p. split; [rewrite nth_set_other by exact NE; exact N|exact Q].
+  Qed.
+
+  (* C04_preserved: every event that is not a terminator for d keeps the binding *)
+  Theorem C04_preserved : forall fx c now branch st ev st' outs,
+    proxy_step fx c now branch st ev = Ok (st', outs) ->
+    ev_ok branch ev -> now < ex -> pinned st -> pinned st'.
+  Proof.
+    intros fx c now branch st ev st' outs E OK L Q. destruct ev as [li' src sport data|li' src sport|cid data|cid|li' a|li' a];
+      cbn [proxy_step ev_ok] in E, OK.
+    - (* UDP datagram *)
+      destruct (nth_opt (c_listens c) li') as [lc|]; [|injection E as <- _; exact Q].
+      destruct (parse_message data) as [[m rest]| |] eqn:EP; try (injection E as <- _; exact Q).
+      eapply run_ctx_pinned; [exact E| |exact Q]. intros -> p x' EF Qp.
+      eapply pinned_p_message; [exact EF|exact (OK eq_refl m rest eq_refl)|exact L|exact Qp].
+    - (* accept *)
+      destruct (nth_opt (c_listens c) li') as [lc|]; [|injection E as <- _; exact Q].
+      destruct (nth_p (st_proxies st) li') as [p0|] eqn:N0; [|injection E as <- _; exact Q].
+      match type of E with context [get_transport ?a ?b ?c ?dd ?ee ?ff] =>
+        pose proof (lb_get_transport a b c dd ee ff) as G; destruct (get_transport a b c dd ee ff) as [p1 rk] end.
+      cbn [fst] in G. injection E as <- _. unfold pinned. cbn [st_proxies]. destruct Q as (p & N & Qp).
+      destruct (Nat.eq_dec li' li) as [->|NE].
+      + rewrite N in N0. injection N0 as <-. eexists. split; [eapply nth_set_same; exact N|].
+        assert (LB : lb_eq p (match rk with Ok key => set_primary key (PConn (w_next_conn (st_world st)) (now_s (mk_env fx c (item_rs_of (fx_wiring fx)) li lc now branch) + 3600)) p1 | _ => p1 end)).
+        { destruct rk; try exact G. eapply lb_trans; [exact G|apply lb_set_primary]. }
+        destruct LB as (B & _ & H & _ & PI). destruct Qp as (P & A & HR). unfold pinned_p. rewrite B, H, PI. repeat split; assumption.
+      + exists p. split; [rewrite nth_set_other by exact NE; exact N|exact Qp].
+    - (* TCP data *)
+      destruct (find (fun x => Nat.eqb (cn_id x) cid) (st_conns st)) as [cn|]; [|injection E as <- _; exact Q].
+      destruct (cn_open cn); [|injection E as <- _; exact Q].
+      destruct (nth_opt (c_listens c) (cn_li cn)) as [lc|]; [|injection E as <- _; exact Q].
+      eapply run_ctx_pinned; [exact E| |exact Q]. intros _ p x' EF Qp.
+      eapply pinned_p_tcp; [|exact EF|exact OK|exact Qp]. exact L.
+    - (* close *)
+      injection E as <- _. exact Q.
+    - (* backend added *)
+      destruct Q as (p & N & Qp).
+      destruct (nth_p (st_proxies st) li') as [p0|] eqn:N0; [|injection E as <- _; exists p; split; assumption].
+      injection E as <- _. unfold pinned. cbn [st_proxies].
+      destruct (Nat.eq_dec li' li) as [->|NE].
+      + rewrite N in N0. injection N0 as <-. eexists. split; [eapply nth_set_same; exact N|].
+        destruct Qp as (P & A & HR). unfold pinned_p. cbn [ps_pins ps_backends ps_has_rr].
+        rewrite alookup_aset_other by (intros H; apply (OK eq_refl); symmetry; exact H). repeat split; assumption.
+      + exists p. split; [rewrite nth_set_other by exact NE; exact N|exact Qp].
+    - (* backend removed *)
+      destruct Q as (p & N & Qp).
+      destruct (nth_p (st_proxies st) li') as [p0|] eqn:N0; [|injection E as <- _; exists p; split; assumption].
+      destruct (rr_remove a (ps_rr p0)) as [r' closed]. injection E as <- _. unfold pinned. cbn [st_proxies].
+      destruct (Nat.eq_dec li' li) as [->|NE].
+      + rewrite N in N0. injection N0 as <-. eexists. split; [eapply nth_set_same; exact N|].
+        destruct Qp as (P & A & HR). unfold pinned_p. cbn [ps_pins ps_backends ps_has_rr].
+        split; [exact P|]. split; [|exact HR].
+        destruct (mem_bytes a (rr_map (ps_rr p))); [|exact A].
+        rewrite alookup_adel_other by (intros H; apply (OK eq_refl); symmetry; exact H). exact A.
+      + exists p. split; [rewrite nth_set_other by exact NE; exact N|exact Qp].
+  Qed.
+End Pinned.
+
+(* ---- histories: every event carries its own time and the branch the proxy generates ---- *)
+Definition hist := list (Z * bytes * event).
+Fixpoint run (fx : fixes) (c : cfg) (st : state) (h : hist) : res (state * list (list output)) :=
+  match h with
+  | [] => Ok (st, [])
+  | (now, br, ev) :: r =>
+      let! (st1, o) := proxy_step fx c now br st ev in
+      let! (st2, os) := run fx c st1 r in
+      Ok (st2, o :: os)
+  end.
+Lemma run_app fx c h1 : forall h2 st,
+  run fx c st (h1 ++ h2) =
+  (let! (st1, o1) := run fx c st h1 in let! (st2, o2) := run fx c st1 h2 in Ok (st2, o1 ++ o2)).
+Proof.
+  induction h1 as [|[[now br] ev] r IH]; intros h2 st; cbn [run app].
+  - cbn. destruct (run fx c st h2) as [[st2 o2]| |]; reflexivity.
+  - destruct (proxy_step fx c now br st ev) as [[st1 o]| |]; cbn [rbind]; try reflexivity.
+    rewrite IH. destruct (run fx c st1 r) as [[st2 os]| |]; cbn [rbind]; try reflexivity.
+    destruct (run fx c st2 h2) as [[st3 o3]| |]; reflexivity.
+Qed.
+Theorem C04_preserved_history : forall li d addr g ex fx c h st st' outss,
+  run fx c st h = Ok (st', outss) ->
+  Forall (fun '(now, br, ev) => now < ex /\ ev_ok li d addr br ev) h ->
+  pinned li d addr g ex st -> pinned li d addr g ex st'.
+Proof.
+  intros li d addr g ex fx c. induction h as [|[[now br] ev] r IH]; intros st st' outss E F Q; cbn [run] in E.
+  - injection E as <- _. exact Q.
+  - inversion F as [|x0 l0 HH F']; subst. cbv beta iota in HH. destruct HH as [L OK].
+    destruct (proxy_step fx c now br st ev) as [[st1 o]| |] eqn:E1; cbn [rbind] in E; try discriminate.
+    destruct (run fx c st1 r) as [[st2 os]| |] eqn:E2; cbn [rbind] in E; try discriminate.
+    injection E as <- _. eapply IH; [exact E2|exact F'|].
+    eapply C04_preserved; eassumption.
+Qed.
+
+Definition udp_from (lc : listen_cfg) : stransport := {| t_kind := KUdp; t_addr := lc_addr lc; t_port := lc_udp lc |}.
+
+(* the binding response as an event *)
+Lemma bind_event fx c li lc now br st st' outs peer port data m rest p g d :
+  nth_opt (c_listens c) li = Some lc -> nth_p (st_proxies st) li = Some p ->
+  proxy_step fx c now br st (EvUdp li peer port data) = Ok (st', outs) ->
+  parse_message data = Ok (m, rest) -> is_request m = false ->
+  alookup (join_host_port peer port) (ps_backends p) = Some g -> ps_has_rr p = true ->
+  method_of m = Ok (s2b "INVITE") -> dialog_of m = Ok d ->
+  0 <= pins_lifetime (ps_pins p) (get_expires m 0) ->
+  pinned li d (join_host_port peer port) g (now + pins_lifetime (ps_pins p) (get_expires m 0)) st'.
+Proof.
+  intros NL NP E EP R A HR Hm Hd L. cbn [proxy_step] in E. rewrite NL, EP in E.
+  unfold run_ctx in E. rewrite NP in E.
+  set (e := mk_env fx c (item_rs_of (fx_wiring fx)) li lc now br) in *.
+  set (x0 := {| x_learned := st_learned st; x_p := p; x_conns := st_conns st; x_world := st_world st; x_outs := [] |}) in *.
+  destruct (C04_bind e peer port (udp_from lc) (e_item_rs e) None m x0 g d R A Hm Hd L) as (x' & E' & PA & _ & ST).
+  unfold udp_from in E'. rewrite E' in E. injection E as <- _.
+  exists (x_p x'). split; [cbn [st_proxies]; eapply nth_set_same; exact NP|].
+  destruct ST as (B & _ & H & _). split; [exact PA|]. split; [rewrite B; exact A|rewrite H; exact HR].
+Qed.
+
+(* the in-dialog request as an event *)
+Lemma sticky_event c li lc t0 now br st st' outs src sport data m rest d addr g ex dst :
+  nth_opt (c_listens c) li = Some lc -> first_transport lc = Some t0 ->
+  proxy_step all_fixed c now br st (EvUdp li src sport data) = Ok (st', outs) ->
+  parse_message data = Ok (m, rest) -> dialog_of m = Ok d ->
+  addressed_to_service (mk_env all_fixed c (item_rs_of true) li lc now br) (udp_from lc) m ->
+  pinned li d addr g ex st -> now < ex -> gen_ok g -> addr_dest addr = Some dst ->
+  exists b, outs = if fits_datagram b then [(dst, b)] else [].
+Proof.
+  intros NL FT E EP Hd AS (p & NP & P & A & HR) L G AD. cbn [proxy_step] in E. rewrite NL, EP in E.
+  unfold run_ctx in E. rewrite NP in E. cbn [fx_wiring all_fixed] in E.
+  set (e := mk_env all_fixed c (item_rs_of true) li lc now br) in *.
+  set (x0 := {| x_learned := st_learned st; x_p := p; x_conns := st_conns st; x_world := st_world st; x_outs := [] |}) in *.
+  destruct (process_message e src sport (udp_from lc) (e_item_rs e) None m x0) as [x'| |] eqn:E'; unfold udp_from in E';
+    rewrite E' in E; try discriminate.
+  injection E as _ <-.
+  destruct (process_message_to_backend e src sport (udp_from lc) (e_item_rs e) None m x0 x' AS E') as (m' & xa & K & LB & EO & ->).
+  destruct LB as (B & _ & H & _ & PI). cbn [x_p x0] in B, H, PI.
+  assert (R' : is_request m' = true) by (rewrite (k_is_request NQ m m' K); apply AS).
+  assert (D' : dialog_of m' = Ok d) by (rewrite (dialog_of_keeps NQ m m' K) by in_names; exact Hd).
+  destruct (C04_sticky_step e m' xa t0 d addr g ex dst eq_refl) as (O & _); try assumption.
+  - rewrite H. exact HR.
+  - rewrite PI. exact P.
+  - rewrite B. exact A.
+  - eexists. rewrite O, EO. reflexivity.
+Qed.
+
+Theorem C04_sticky : forall c li lc t0 h1 tb bb peer port datab h2 tr br src sport datar st0 stf outss
+                            st1 o1 p1 mb restb mr restr g d dst,
+  nth_opt (c_listens c) li = Some lc -> first_transport lc = Some t0 ->
+  run all_fixed c st0 (h1 ++ (tb, bb, EvUdp li peer port datab) :: h2 ++ [(tr, br, EvUdp li src sport datar)])
+    = Ok (stf, outss) ->
+  (* when the response arrives its sender is a registered backend (generation g) *)
+  run all_fixed c st0 h1 = Ok (st1, o1) -> nth_p (st_proxies st1) li = Some p1 ->
+  let addr := join_host_port peer port in
+  alookup addr (ps_backends p1) = Some g -> gen_ok g -> ps_has_rr p1 = true -> addr_dest addr = Some dst ->
+  (* the binding response: INVITE in CSeq, both tags *)
+  parse_message datab = Ok (mb, restb) -> is_request mb = false ->
+  method_of mb = Ok (s2b "INVITE") -> dialog_of mb = Ok d ->
+  let life := pins_lifetime (ps_pins p1) (get_expires mb 0) in
+  0 <= life ->
+  (* in between: anything but a terminator for d, within the lifetime *)
+  Forall (fun '(now, b, ev) => now < tb + life /\ ev_ok li d addr b ev) h2 ->
+  (* the request: same dialog (either direction, any method), addressed to the service *)
+  parse_message datar = Ok (mr, restr) -> dialog_of mr = Ok d -> tr < tb + life ->
+  addressed_to_service (mk_env all_fixed c (item_rs_of true) li lc tr br) (udp_from lc) mr ->
+  exists b, last outss [] = if fits_datagram b then [(dst, b)] else [].
+Proof.
+  intros c li lc t0 h1 tb bb peer port datab h2 tr br src sport datar st0 stf outss st1 o1 p1 mb restb mr restr g d dst
+         NL FT E E1 NP addr A G HR AD EPb Rb Mb Db life L F EPr Dr Lr AS.
+  rewrite run_app, E1 in E. cbn [rbind run] in E.
+  destruct (proxy_step all_fixed c tb bb st1 (EvUdp li peer port datab)) as [[st2 ob]| |] eqn:E2; cbn [rbind] in E; try discriminate.
+  rewrite run_app in E.
+  destruct (run all_fixed c st2 h2) as [[st3 o3]| |] eqn:E3; cbn [rbind run] in E; try discriminate.
+  destruct (proxy_step all_fixed c tr br st3 (EvUdp li src sport datar)) as [[st4 outs]| |] eqn:E4; cbn [rbind] in E; try discriminate.
+  injection E as _ <-.
+  assert (Q2 : pinned li d addr g (tb + life) st2) by (eapply bind_event; eassumption).
+  assert (Q3 : pinned li d addr g (tb + life) st3) by (eapply C04_preserved_history; eassumption).
+  destruct (sticky_event c li lc t0 tr br st3 st4 outs src sport datar mr restr d addr g (tb + life) dst) as (b & ->); try assumption.
+  exists b. rewrite app_comm_cons, app_assoc, last_last. reflexivity.
+Qed.
+
+Theorem C04_unpinned_balanced : forall e peer port from rs tcp m x x' t0,
+  addressed_to_service e from m -> process_message e peer port from rs tcp m x = Ok x' ->
+  ps_has_rr (x_p x) = true -> first_transport (e_lc e) = Some t0 ->
+  (forall d, dialog_of m = Ok d -> snd (pins_get (e_now e) d (ps_pins (x_p x))) = None) ->
+  exists b,
+    x_outs x' = x_outs x ++
+      match snd (rr_dispatch (ps_rr (x_p x))) with
+      | Some a => if fits_datagram b then to_addr_outs a b else []
+      | None => []
+      end /\
+    ps_rr (x_p x') = fst (rr_dispatch (ps_rr (x_p x))).
+Proof.
+  intros e peer port from rs tcp m x x' t0 AS E HR FT NP.
+  destruct (process_message_to_backend e peer port from rs tcp m x x' AS E) as (m' & xa & K & LB & EO & ->).
+  destruct LB as (_ & RR & H & _ & PI).
+  destruct (C04_unpinned_step e m' xa t0) as (O & R2); try assumption.
+  - rewrite H. exact HR.
+  - rewrite (k_is_request NQ m m' K). apply AS.
+  - intros d Hd. rewrite PI. apply NP. rewrite <- (dialog_of_keeps NQ m m' K) by in_names. exact Hd.
+  - eexists. rewrite O, R2, RR, EO. split; reflexivity.
+Qed.
